@@ -7,7 +7,9 @@
 EXTENDS Imports, Json
 CONSTANT Restrict      \* TRUE: no self imports, imports always first (keeps three files enumerable)
 VARIABLE proj
-FileCfg == [defs : [Names -> {"none", "private", "public"}], imps : [Files -> {"none", "plain", "alias"}],
+CONSTANT Redefine      \* TRUE: a name may also be defined twice in a file with different visibility
+DefKinds == IF Redefine THEN {"none", "private", "public", "pubpriv", "privpub"} ELSE {"none", "private", "public"}
+FileCfg == [defs : [Names -> DefKinds], imps : [Files -> {"none", "plain", "alias"}],
             importsFirst : IF Restrict THEN {TRUE} ELSE BOOLEAN]
 Init == /\ proj \in [Files -> FileCfg]
         /\ Restrict => \A f \in Files : proj[f].imps[f] = "none"
